@@ -84,6 +84,8 @@ def corpus_helpers(tier):
     # a boundary made of the RFC 2046 characters that force the Content-Type parameter to be a quoted string (comma, equals sign,
     # parentheses, blank inside): the request accessors must hand the decoder the boundary the client wrote
     out.append(([part("f", None, "é, x".encode()), part("u", "a,b.txt", b"1,2\r\n")], b"=_Part,17_+(x) y", "utf-8", None, None))
+    # ... and one that begins and ends with an apostrophe (a legal boundary character that needs no quoting)
+    out.append(([part("f", None, b"it's"), part("u", "'.txt", b"'\r\n--'")], b"'q'", "utf-8", None, None))
     if tier == "thorough":
         out.append(([part("f", None, ("中" * 5).encode()), part("g", None, ("é\r\n" * 3).encode())], b"'()+_,-./:=?", "utf-8", None, None))
     return out
@@ -435,7 +437,42 @@ def two_thread_parses(prefix, jobs):
     return S.execution({"results": results, "stuck": (not ok) or S.deadlock})
 
 
-PATHS = {"parse_stream": via_parse_stream, "parse_async_stream": via_parse_async_stream, "wsgi_form": via_wsgi_form, "asgi_form": via_asgi_form}
+def via_decoder_collect(chunks, boundary, charset):
+    """The event-level decoder under a consumer that collects the events while it feeds the chunks and assembles the parts only
+    afterwards (events are values: what was returned once must not change when the decoder goes on)."""
+    from baize import multipart as M
+
+    dec = M.MultipartDecoder(boundary, charset)
+    events = []
+    for c in list(chunks) + [None]:
+        dec.receive_data(c)
+        while state_name(dec) != "COMPLETE":
+            ev = dec.next_event()
+            if isinstance(ev, M.NeedData):
+                break
+            events.append(ev)
+    try:
+        "".encode(charset)
+        enc = charset
+    except LookupError:
+        enc = "latin-1"
+    out, cur = [], None
+    for ev in events:
+        if isinstance(ev, (M.Field, M.File)):
+            cur = [ev, bytearray()]
+        elif isinstance(ev, M.Data):
+            cur[1] += ev.data
+            if not ev.more_data:
+                head, data = cur
+                if isinstance(head, M.File):
+                    out.append((head.name, head.filename, dict(head.headers).get("content-type", ""), bytes(data)))
+                else:
+                    out.append((head.name, bytes(data).decode(enc)))
+                cur = None
+    return out
+
+
+PATHS = {"decoder_collect": via_decoder_collect, "parse_stream": via_parse_stream, "parse_async_stream": via_parse_async_stream, "wsgi_form": via_wsgi_form, "asgi_form": via_asgi_form}
 
 
 def helper_chunkings(body, two_cuts):
